@@ -32,7 +32,7 @@ const c25SigLifecycle = "c25-query-perturbs-block"
 
 // c25Sweep runs the read-only queries an API server makes (current state only) over every user,
 // coin, candidate and the next heights. mask selects the groups (bit per group).
-func c25Sweep(cs *state.CheckState, addrs []types.Address, coinIDs []uint64, height uint64, mask int) (n int, panics int) {
+func c25Sweep(cs *state.CheckState, addrs []types.Address, coinIDs []uint64, height uint64, maxOrder uint32, mask int) (n int, panics int) {
 	group := func(bit int, f func()) {
 		if mask&(1<<bit) == 0 {
 			return
@@ -48,7 +48,9 @@ func c25Sweep(cs *state.CheckState, addrs []types.Address, coinIDs []uint64, hei
 		for _, a := range addrs {
 			cs.Accounts().GetBalances(a)
 			cs.Accounts().GetNonce(a)
-			n += 2
+			cs.Accounts().GetAccount(a)
+			cs.Accounts().GetLockStakeUntilBlock(a)
+			n += 4
 		}
 	})
 	group(1, func() {
@@ -64,6 +66,7 @@ func c25Sweep(cs *state.CheckState, addrs []types.Address, coinIDs []uint64, hei
 				cs.Coins().GetCoinBySymbol(c.Symbol(), 0)
 				cs.Coins().ExistsBySymbol(c.Symbol())
 			}
+			cs.Coins().Exists(types.CoinID(id))
 			n++
 		}
 	})
@@ -79,13 +82,17 @@ func c25Sweep(cs *state.CheckState, addrs []types.Address, coinIDs []uint64, hei
 			cs.FrozenFunds().GetFrozenFunds(height + d)
 			n++
 		}
+		cs.FrozenFunds().GetFrozenFundsAll(context.Background(), height, height+12)
 	})
 	group(4, func() {
 		for _, c := range cs.Candidates().GetCandidates() {
 			cs.Candidates().GetStakes(c.PubKey)
 			cs.Candidates().GetTotalStake(c.PubKey)
-			n += 2
+			cs.Candidates().PubKey(c.ID)
+			cs.Validators().GetByPublicKey(c.PubKey)
+			n += 4
 		}
+		cs.App().Reward()
 		cs.Validators().GetValidators()
 		cs.Commission().GetCommissions()
 		cs.App().GetTotalSlashed()
@@ -102,12 +109,26 @@ func c25Sweep(cs *state.CheckState, addrs []types.Address, coinIDs []uint64, hei
 					sw.Reserves()
 					sw.CalculateBuyForSellWithOrders(big.NewInt(1e18))
 					sw.CalculateSellForBuyWithOrders(big.NewInt(1e15))
-					n += 2
+					// what the estimate handlers do for a commission paid through the pool
+					if out, _ := sw.CalculateBuyForSellWithOrders(big.NewInt(1e17)); out != nil && out.Sign() == 1 {
+						next := sw.AddLastSwapStepWithOrders(big.NewInt(1e17), out, false)
+						next.Reserves()
+						next.Reverse().CalculateBuyForSellWithOrders(big.NewInt(1e16))
+					}
+					n += 3
 				}
 			}
 		}
 		if len(coinIDs) > 1 {
 			cs.Swap().GetBestTradeExactIn(ctx, coinIDs[0], coinIDs[1], big.NewInt(1e18), 3)
+			n++
+		}
+		cs.Swap().SwapPools(ctx)
+	})
+	group(6, func() {
+		// single orders by id, open, filled, cancelled and not yet created ones alike
+		for id := uint32(1); id <= maxOrder+3; id++ {
+			cs.Swap().GetOrder(id)
 			n++
 		}
 	})
@@ -128,7 +149,7 @@ func TestC25_Reg_CommitWindowWaitlist(t *testing.T) {
 	if root == "" {
 		root = "/verif"
 	}
-	known := root + "/replays/C25/known/TestC25LifecycleReads-20260922161228-5528.fail"
+	known := root + "/replays/C25/known/TestC25LifecycleReads-20260922162022-10307.fail"
 	if !fileExists(known) {
 		t.Skip("saved history not found")
 	}
@@ -148,6 +169,7 @@ func c25Lifecycle(t *rapid.T) {
 		}
 	}
 	prof["unbond"] = 20
+	prof["addOrder"], prof["removeOrder"], prof["buyPool"] = 10, 8, 10
 	h := newHistory(t, wo, prof, sim.BlockOpts{MaxTxs: 8, Absences: true, Evidence: false})
 	n, r, w := h.N, h.R, h.W
 	twin := sim.NewNode(w)
@@ -159,15 +181,21 @@ func c25Lifecycle(t *rapid.T) {
 	}
 	points := map[string]int{}
 	reads, panics := 0, 0
+	maxOrder := uint32(0)
 	sweep := func(point string, mask int) {
 		ids := append([]uint64{0}, h.G.V.CoinIDs...)
-		k, p := c25Sweep(n.App.CurrentState(), addrs, ids, n.LastHeight+1, mask)
+		for _, o := range h.G.V.Orders {
+			if uint32(o) > maxOrder {
+				maxOrder = uint32(o)
+			}
+		}
+		k, p := c25Sweep(n.App.CurrentState(), addrs, ids, n.LastHeight+1, maxOrder, mask)
 		reads += k
 		panics += p
 		points[point]++
-		r.Steps = append(r.Steps, fmt.Sprintf("  QUERIES (%s, groups %06b)", point, mask))
+		r.Steps = append(r.Steps, fmt.Sprintf("  QUERIES (%s, groups %07b)", point, mask))
 	}
-	mask := func() int { return 1 + sim.U(t, "queryGroups", 63) }
+	mask := func() int { return 1 + sim.U(t, "queryGroups", 127) }
 	r.H.BeforeTx = func(*sim.TxMeta) {
 		if sim.U(t, "queryBeforeTx", 4) == 0 {
 			sweep("before-tx", mask())
